@@ -3,7 +3,8 @@
    (harness/core.py reads the Print Assumptions output in this order.)
    Instants: `u : Z` = microseconds since 2000-01-01T00:00:00 (the datetime grid), `T : Q` = Julian date. *)
 From Coq Require Import ZArith QArith Qround Bool List String Ascii.
-From Verif Require Import Lib.Dyadic Model.C02_Formats Gen.C02_Tables Proofs.C02_Formats.
+From Verif Require Import Lib.Dyadic Model.C02_Formats Model.C02_Arrays Gen.C02_Tables Proofs.C02_Formats Proofs.C02_Arrays
+  Proofs.C02_Rounding.
 Import ListNotations.
 Open Scope Z_scope.
 
@@ -72,11 +73,12 @@ Proof.
 Qed.
 Print Assumptions format_roundtrip_numeric.
 
-(* decimal year, with the year length the code uses (leap seconds for utc, regenerated TAI-UTC rows) *)
+(* decimal year, with the year length the code uses (leap seconds for utc, regenerated TAI-UTC rows): no bound on
+   the year for tai/tcg/gps/tt; for utc the whole range in which the code can form datetime(year + 1, 1, 1) *)
 Theorem format_roundtrip_decimalyear : forall (s : scale) (T : Q),
-  1900 <= year_of_jd T <= 2100 ->
+  match s with Sutc => 1 <= year_of_jd T <= 9998 | _ => True end ->
   (jd_of_decyear (ylen_of gen_taiutc s) (decyear_of_jd (ylen_of gen_taiutc s) T) == T)%Q.
-Proof. exact decyear_rt_gen. Qed.
+Proof. exact decyear_rt_all. Qed.
 Print Assumptions format_roundtrip_decimalyear.
 
 (* fixed-width text: parsing a rendered record returns the values, for every pattern *)
@@ -136,9 +138,9 @@ Theorem gen_formats_match_spec : strs_eqb gen_formats spec_formats = true.
 Proof. exact gen_formats_ok. Qed.
 Print Assumptions gen_formats_match_spec.
 
-(* with the regenerated TAI-UTC rows a UTC year is never shorter than the calendar year, 1900..2100 *)
-Theorem gen_utc_year_not_shorter : forall y, 1900 <= y <= 2100 -> (cal_len y <= ylen_utc gen_taiutc y)%Q.
-Proof. exact gen_ylen_ok. Qed.
+(* with the regenerated TAI-UTC rows a UTC year is never shorter than the calendar year, years 1..9998 *)
+Theorem gen_utc_year_not_shorter : forall y, 1 <= y <= 9998 -> (cal_len y <= ylen_utc gen_taiutc y)%Q.
+Proof. exact gen_ylen_ok_all. Qed.
 Print Assumptions gen_utc_year_not_shorter.
 
 (* quirk: with binary64 evaluation of the coded expression (day taken from the rounded sum jd1 + jd2) the
@@ -151,7 +153,74 @@ Theorem c02_rounded_sum_refuted :
 Proof. exact rounded_sum_refuted. Qed.
 Print Assumptions c02_rounded_sum_refuted.
 
+(* ... and outside its class the quirk does nothing: for a normalised pair (half-integer jd1, years 1030..6770, binary64
+   jd2 not in the last 2^-31 day = 40 us) binary64 evaluation of the coded expression is the exact split *)
+Theorem c02_rounded_sum_agrees_outside : forall (k : Z) (jd2 : Q),
+  2097153 <= k <= 4194302 -> (0 <= jd2)%Q -> (jd2 <= 1 - (1 # 2147483648))%Q -> (rn53 jd2 == jd2)%Q ->
+  let jd1 := (Qz k + (1 # 2))%Q in
+  (fst (split_model quirk_rounded_sum jd1 jd2) == fst (split_model all_off jd1 jd2))%Q /\
+  (snd (split_model quirk_rounded_sum jd1 jd2) == snd (split_model all_off jd1 jd2))%Q /\
+  (fst (split_model quirk_rounded_sum jd1 jd2) == jd1)%Q /\ (snd (split_model quirk_rounded_sum jd1 jd2) == jd2)%Q.
+Proof. exact rounded_sum_agrees_outside_lemma. Qed.
+Print Assumptions c02_rounded_sum_agrees_outside.
+
+(* every format, every instant of the domain: the value read from T denotes T - exactly for the numeric formats,
+   within half a microsecond (rounding of timedelta) plus the resolution of the format (0 / 1 s / 1 day) otherwise *)
+Theorem format_roundtrip_all : forall (s : scale) (f : fmt) (T : Q),
+  fmt_valid s f = true -> in_domain s f T = true ->
+  exists v T', from_T gen_taiutc s f T = Some v /\ to_Tm gen_taiutc s f v = Some T' /\
+    if on_us_grid f
+    then (- (1 # 2) <= usq_of_jd T - usq_of_jd T')%Q /\ (usq_of_jd T - usq_of_jd T' <= Qz (res_us f) + (1 # 2))%Q
+    else (T' == T)%Q.
+Proof. exact format_roundtrip_all_lemma. Qed.
+Print Assumptions format_roundtrip_all.
+
+(* arrays: element i of the result is the scalar function of element i of the input, nothing else *)
+Theorem pointwise : forall rows s f,
+  (forall jd1 jd2 i, nth_error (from_jds_list rows s f jd1 jd2) i =
+     match nth_error jd1 i, nth_error jd2 i with
+     | Some a, Some b => Some (from_T rows s f (a + b))
+     | _, _ => None
+     end) /\
+  (forall vs i, nth_error (to_jds_list rows s f vs) i =
+     match nth_error vs i with Some v => Some (to_Tm rows s f v) | None => None end) /\
+  (forall jd1 jd2 jd1' jd2' i, nth_error jd1 i = nth_error jd1' i -> nth_error jd2 i = nth_error jd2' i ->
+     nth_error (from_jds_list rows s f jd1 jd2) i = nth_error (from_jds_list rows s f jd1' jd2') i) /\
+  (forall vs vs' i, nth_error vs i = nth_error vs' i ->
+     nth_error (to_jds_list rows s f vs) i = nth_error (to_jds_list rows s f vs') i) /\
+  (forall jd1 jd2, List.length (from_jds_list rows s f jd1 jd2) = Nat.min (List.length jd1) (List.length jd2)) /\
+  (forall vs, to_jds_list rows s f vs = map (to_Tm rows s f) vs).
+Proof.
+  intros rows s f. repeat split.
+  - apply from_jds_list_nth.
+  - apply to_jds_list_nth.
+  - apply from_jds_list_local.
+  - apply to_jds_list_local.
+  - apply from_jds_list_length.
+  - apply to_jds_list_map.
+Qed.
+Print Assumptions pointwise.
+
+(* scalar, length-1 and element i of length-n inputs give the same value *)
+Theorem shape_identity : forall rows s f,
+  (forall jd1 jd2 i a b, nth_error jd1 i = Some a -> nth_error jd2 i = Some b ->
+     from_jds_list rows s f [a] [b] = [from_T rows s f (a + b)] /\
+     nth_error (from_jds_list rows s f jd1 jd2) i = Some (from_T rows s f (a + b)) /\
+     nth_error (from_jds_list rows s f jd1 jd2) i = nth_error (from_jds_list rows s f [a] [b]) 0) /\
+  (forall vs i v, nth_error vs i = Some v ->
+     to_jds_list rows s f [v] = [to_Tm rows s f v] /\
+     nth_error (to_jds_list rows s f vs) i = Some (to_Tm rows s f v) /\
+     nth_error (to_jds_list rows s f vs) i = nth_error (to_jds_list rows s f [v]) 0).
+Proof. intros rows s f. split; [apply shape_identity_from|apply shape_identity_to]. Qed.
+Print Assumptions shape_identity.
+
 (* non-vacuity *)
+Example ex_agrees_outside_hyp : 2097153 <= 2458908 <= 4194302 /\ (rn53 (1 # 2) == 1 # 2)%Q /\ (rn53 w_jd2 == w_jd2)%Q.
+Proof. split; [split; discriminate|]. split; vm_compute; reflexivity. Qed.
+Example ex_roundtrip_all_domain : in_domain Sutc Fyy (jd_of_us 636292800000001) = true /\ in_domain Sutc Fdecimalyear (jd_of_us 0) = true.
+Proof. split; vm_compute; reflexivity. Qed.
+Example ex_from_T : from_T gen_taiutc Sgps Fisot (jd_of_us 636292800000001) = Some (MStr "2020-02-29T12:00:00.000001").
+Proof. vm_compute. reflexivity. Qed.
 Example ex_civil : civil_from_days 18321 = (2020, 2, 29) /\ days_from_civil 1900 1 1 = -25567.
 Proof. split; reflexivity. Qed.
 Example ex_isot : text_of_us Tisot 636292800000001 = "2020-02-29T12:00:00.000001"%string.
